@@ -201,6 +201,84 @@ def n8_bytestr(toks, counts):
     return out
 
 
+def n13_match_bytestr(toks, counts):
+    """N13: `match E { b"lt" => A, b"x" | b"y" => B, _ => C }` (all patterns byte-string literals or `_`) ->
+    `{ let __m13_K = E; if bytes_eq(__m13_K, b"lt") { A } else if bytes_eq(__m13_K, b"x") || bytes_eq(__m13_K, b"y") { B } else { C } }`.
+    A byte-string literal pattern matches exactly the slices equal to it (Rust Reference: literal patterns);
+    Verus has no slice patterns. Runs before N8, which then turns the literals into array expressions."""
+    seq = [0]
+
+    def arms_of(body):
+        """split the tokens between the braces of a match into (pattern tokens, expr tokens)"""
+        arms = []
+        i, n = 0, len(body)
+        while i < n:
+            j = i
+            while j < n and not (is_p(body[j], "=") and j + 1 < n and is_p(body[j + 1], ">")):
+                if body[j].kind == "punct" and body[j].text in OPEN:
+                    j = match_close(body, j)
+                j += 1
+            if j >= n:
+                break
+            pat = body[i:j]
+            k = j + 2
+            if k < n and is_p(body[k], "{"):
+                e = match_close(body, k)
+                expr = body[k:e + 1]
+                k = e + 1
+                if k < n and is_p(body[k], ","):
+                    k += 1
+            else:
+                e = k
+                while e < n and not is_p(body[e], ","):
+                    if body[e].kind == "punct" and body[e].text in OPEN:
+                        e = match_close(body, e)
+                    e += 1
+                expr = body[k:e]
+                k = e + 1
+            arms.append((pat, expr))
+            i = k
+        return arms
+
+    def go(toks):
+        out = []
+        i, n = 0, len(toks)
+        while i < n:
+            t = toks[i]
+            if is_id(t, "match"):
+                try:
+                    bo = _body_open(toks, i + 1)
+                except AnchorError:
+                    out.append(t); i += 1; continue
+                bc = match_close(toks, bo)
+                arms = arms_of(toks[bo + 1:bc])
+                ok = bool(arms) and any(p and p[0].kind == "str" for p, _ in arms)
+                for p, _ in arms:
+                    alts = [x for x in p if not is_p(x, "|")]
+                    if not all((x.kind == "str" and x.text.startswith('b"')) or is_id(x, "_") for x in alts):
+                        ok = False
+                if ok and is_id(arms[-1][0][0], "_") and len(arms[-1][0]) == 1:
+                    seq[0] += 1
+                    v = "__m13_%d" % seq[0]
+                    scrut = toks[i + 1:bo]
+                    new = frag("{ let " + v + " =", t.trivia) + scrut + frag(";")
+                    first = True
+                    for p, e in arms[:-1]:
+                        alts = [x for x in p if not is_p(x, "|")]
+                        cond = " || ".join("bytes_eq(%s, %s)" % (v, x.text) for x in alts)
+                        new += frag(("if " if first else "else if ") + cond + " {") + go(list(e)) + frag("}")
+                        first = False
+                    new += frag("else {") + go(list(arms[-1][1])) + frag("} }")
+                    out.extend(new)
+                    counts["N13"] = counts.get("N13", 0) + 1
+                    i = bc + 1
+                    continue
+            out.append(t)
+            i += 1
+        return out
+    return go(list(toks))
+
+
 def _body_open(toks, i):
     """first '{' at paren depth 0 from i"""
     j = i
@@ -572,6 +650,8 @@ def apply_all(toks, repo, opts, notes):
     if opts.get("drop"):
         toks = drop_tokens(toks, set(opts["drop"]), counts)
     toks = n6_debug_assert(toks, counts)
+    if opts.get("n13"):
+        toks = n13_match_bytestr(toks, counts)
     toks = n8_bytestr(toks, counts)
     toks = n1_for(toks, counts)
     toks = n4_while_let(toks, counts)
